@@ -226,6 +226,45 @@ def gen_suffix_repo(rng):
     return dict(tree=tree, ignores={where: pats}, ci=False)
 
 
+def gen_ext_rules_repo(rng):
+    """two or three wildcard rules with the same trailing extension that match the same files, with opposite polarity
+    (`src/*.rs` then `!src/m*.rs`): the last matching rule must win, so every matching rule has to be found"""
+    ext = rng.choice([b".rs", b".a", b".b", b".txt"])
+    d = rng.choice([b"src", b"a", b"a.b", b""])
+    pre = (d + b"/") if d else b""
+    stems = [b"m", b"main", b"mod", b"a", b"lib", b"b-m"]
+    tree = {}
+    if d:
+        tree[d] = "d"
+        tree[d + b"/sub"] = "d"
+    for st in rng.sample(stems, 4):
+        tree[pre + st + ext] = "f"
+        if d and rng.random() < 0.5:
+            tree[d + b"/sub/" + st + ext] = "f"
+        if rng.random() < 0.3:
+            tree[st + ext] = "f"
+    tree[pre + b"keep.x"] = "f"
+    if d:
+        tree[d] = "d"
+        tree[d + b"/sub"] = "d"
+    tree = {p0: t for p0, t in tree.items() if not (t == "f" and any(o.startswith(p0 + b"/") for o in tree))}
+    k = rng.randint(0, 4)
+    P = esc(pre) if pre else b""
+    if k == 0:
+        lines = [P + b"*" + ext, b"!" + P + b"m*" + ext]
+    elif k == 1:
+        lines = [b"!" + P + b"m*" + ext, P + b"*" + ext]
+    elif k == 2:
+        lines = [P + b"*" + ext, b"!" + P + b"m*" + ext, P + b"ma*" + ext]
+    elif k == 3:
+        lines = [b"m*" + ext, b"!*a*" + ext, b"?" + ext]
+    else:
+        lines = [b"**/*" + ext[:0] + b"?" + ext, b"!" + P + b"[lm]*" + ext, P + b"mod" + ext]
+    if rng.random() < 0.2:
+        lines.append(gen_line(rng, [b"m", b"main"], False))
+    return dict(tree=tree, ignores={b"": lines}, ci=False)
+
+
 def gen_blank_repo(rng):
     """names with blanks, written with an UNESCAPED inner blank followed only by escapes (and blanks) up to the end
     of the line: git drops only the unescaped trailing run (`a \\b` is the name "a b", `c \\ ` is "c  "); the files
@@ -882,6 +921,14 @@ CORPUS += [   # two `**/x/y/z`-style patterns of different lengths (one shared s
                b"d/a/b/ab/c": "f", b"d/b": "d", b"d/b/ab": "f"},
          ignores={b"": [b"**/a/b/ab/", b"**/b/ab", b"**/ab/c"]}, ci=False),
 ]
+CORPUS += [   # same-extension wildcard rules of opposite polarity: every matching rule must be found, the last one wins
+    dict(tree={b"src": "d", b"src/main.rs": "f", b"src/mod.rs": "f", b"src/lib.rs": "f", b"src/a.rs": "f", b"src/keep.x": "f"},
+         ignores={b"": [b"src/*.rs", b"!src/m*.rs"]}, ci=False),
+    dict(tree={b"src": "d", b"src/main.rs": "f", b"src/mod.rs": "f", b"src/lib.rs": "f"},
+         ignores={b"": [b"!src/m*.rs", b"src/*.rs"]}, ci=False),
+    dict(tree={b"main.a": "f", b"mod.a": "f", b"lib.a": "f", b"d": "d", b"d/main.a": "f"},
+         ignores={b"": [b"?*.a", b"!m*.a", b"ma*.a"]}, ci=False),
+]
 KNOWN_CORPUS = [
     dict(tree={b"a": "d", b"a/c": "f", b"abc": "f", b"a-c": "f"}, ignores={b"": [b"a[!b]c"]}, ci=False),          # class vs '/'
     dict(tree={b"a": "f", b"b": "f", b"{a,b}": "f"}, ignores={b"": [b"{a,b}"]}, ci=False),                       # D12
@@ -899,7 +946,8 @@ def run(ctx):
     check_repos(ctx, KNOWN_CORPUS)
     n = ctx.count(220)
     repos = [gen_idiom_repo(rng) if i % 5 == 0 else (gen_blank_repo(rng) if i % 7 == 3 else
-                                                      (gen_suffix_repo(rng) if i % 7 == 6 else gen_repo(rng, rng.random() < 0.25)))
+                                                      (gen_suffix_repo(rng) if i % 7 == 6 else
+                                                       (gen_ext_rules_repo(rng) if i % 7 == 1 else gen_repo(rng, rng.random() < 0.25))))
              for i in range(n)]
     ctx.cov["suffix_table_repos"] = sum(1 for i in range(n) if i % 5 != 0 and i % 7 == 6)
     ctx.cov["blank_escape_repos"] = sum(1 for i in range(n) if i % 5 != 0 and i % 7 == 3)
